@@ -339,7 +339,9 @@ impl AtomicCacheMetrics {
         let new_memory = self
             .memory_usage_bytes
             .fetch_add(size_bytes, Ordering::Relaxed)
-            + size_bytes;
+            // The atomic itself wraps; follow it (a concurrent reset() followed by a
+            // late record_eviction() can leave the gauge transiently "negative").
+            .wrapping_add(size_bytes);
         self.max_memory_usage_bytes
             .fetch_max(new_memory, Ordering::Relaxed);
 
